@@ -73,6 +73,10 @@ func (m *GenericSyncMap[K, V]) Iterate(cb func(key K, value V) bool) {
 	m.mtx.Lock()
 	defer m.mtx.Unlock()
 
+	if verifIterate(m, m.m, cb) {
+		return
+	}
+
 	for k, v := range m.m {
 		if !cb(k, v) {
 			break
